@@ -452,3 +452,12 @@ pub fn mk_black_hole_ready() -> MtuDiscovery {
     };
     build(&m, &[1400, 1400, 1400], None, 0, 1200).unwrap()
 }
+
+/// MTU discovery switched off at 1200 bytes - for native replay bodies outside this module.
+pub fn mk_disabled() -> MtuDiscovery {
+    let m = M {
+        current: 1200, min_mtu: 1200, enabled: false, phase: 0, peer_max: 65527, cfg_upper: 1452, min_change: 20, lower: 1200, upper: 1452,
+        last_probed: 1200, in_flight: false, in_flight_pn: 0, lost: 0, complete_secs: 40, interval_secs: 600, cooldown_secs: 60, ghost_min_peer: 65527,
+    };
+    build(&m, &[], None, 0, 1200).unwrap()
+}
